@@ -203,6 +203,137 @@ def strip_macro_calls(text: str, names: List[str], repl: str, report: DropReport
     return text
 
 
+def excise_match(text: str, scrutinee: str, replacement: str, report: DropReport, item: str) -> str:
+    """W10: the expression `match <scrutinee> { .. }` is replaced as a whole by `replacement` (a call to a
+    stand-in declared in the prelude whose contract states what the excised expression is assumed to do).
+    Used where an arm needs a runtime (tokio::spawn, channels) that is out of the verifier's reach."""
+    fr = R.Frag(text)
+    ct = fr.ct
+    seq = ["match"] + R.tokenize_pattern(scrutinee) + ["{"]
+    idx = R.find_seq(ct, seq)
+    if len(idx) != 1:
+        raise ExtractError(f"{item}: excision anchor `match {scrutinee} {{` matched {len(idx)} times")
+    i = idx[0]
+    bo = i + len(seq) - 1
+    bc = R.match_close(ct, bo)
+    n_lines = text[ct[i].start:ct[bc].end].count("\n") + 1
+    fr.replace(ct[i].start, ct[bc].end, replacement)
+    report.add("W10", item, f"`match {scrutinee} {{..}}` ({n_lines} lines) excised -> `{replacement}`")
+    return fr.apply()
+
+
+def desugar_try(text: str, report: DropReport, item: str) -> str:
+    """W11: `e?` -> `match e { Ok(v) => v, Err(e) => return Err(From::from(e)) }`, the language-defined
+    meaning of `?` on a Result.  Needed only where `?` converts the error type: Verus keeps the converted
+    value opaque for `?` but not for the explicit `From::from` call."""
+    n = 0
+    while True:
+        fr = R.Frag(text)
+        ct = fr.ct
+        q = None
+        for i, t in enumerate(ct):
+            if t.kind == "punct" and t.text == "?" and i > 0:
+                q = i
+                break
+        if q is None:
+            break
+        # walk back over the postfix chain
+        j = q - 1
+        while True:
+            tt = ct[j]
+            if tt.text in (")", "]"):
+                # matching open
+                depth = 0
+                k = j
+                while True:
+                    if ct[k].text in R.CLOSE:
+                        depth += 1
+                    elif ct[k].text in R.OPEN:
+                        depth -= 1
+                        if depth == 0:
+                            break
+                    k -= 1
+                j = k
+                # a call/index: the callee precedes
+                if j > 0 and (ct[j - 1].kind == "ident" or ct[j - 1].text in (")", "]", ">")):
+                    j -= 1
+                    continue
+                break
+            if tt.kind in ("ident", "num", "str"):
+                if j > 0 and ct[j - 1].text in (".", "::"):
+                    j -= 2
+                    continue
+                break
+            break
+        start = ct[j].start
+        expr = text[start:ct[q - 1].end]
+        fr.replace(start, ct[q].end, f"(match {expr} {{ Ok(try_v{n}) => try_v{n}, Err(try_e{n}) => return Err(From::from(try_e{n})) }})")
+        text = fr.apply()
+        n += 1
+        if n > 50:
+            raise ExtractError(f"{item}: runaway `?` desugaring")
+    if n:
+        report.add("W11", item, "`e?` desugared to `match e { Ok(v) => v, Err(e) => return Err(From::from(e)) }`", n)
+    return text
+
+
+def drop_cfg_gated(text: str, features: List[str], report: DropReport, item: str) -> str:
+    """W0: a statement/expression-statement carrying `#[cfg(feature = "F")]` for a feature that is OFF in the
+    verified configuration (default features) is removed together with the attribute, exactly as the compiler does."""
+    n = 0
+    while True:
+        fr = R.Frag(text)
+        ct = fr.ct
+        hit = None
+        for i in range(len(ct) - 1):
+            if ct[i].text == "#" and ct[i + 1].text == "[":
+                e = R.match_close(ct, i + 1)
+                inner = [t.text for t in ct[i + 2:e]]
+                if inner[:2] == ["cfg", "("] and "feature" in inner and any(('"' + f + '"') in inner for f in features) and "not" not in inner:
+                    hit = (i, e)
+                    break
+        if hit is None:
+            break
+        i, e = hit
+        k = e + 1
+        while k < len(ct):
+            tt = ct[k].text
+            if tt in R.OPEN:
+                k = R.match_close(ct, k) + 1
+                continue
+            if tt == ";":
+                break
+            k += 1
+        fr.replace(ct[i].start, ct[k].end, "")
+        text = fr.apply()
+        n += 1
+    if n:
+        report.add("W0", item, f"statement(s) gated by a disabled cargo feature {features} removed (as the compiler does)", n)
+    return text
+
+
+def excise_stmt(text: str, anchor: str, replacement: str, report: DropReport, item: str) -> str:
+    """W10: the block statement that starts with the token sequence `anchor` (e.g. a `for` loop that only
+    builds a logger) is removed / replaced as a whole."""
+    fr = R.Frag(text)
+    ct = fr.ct
+    seq = R.tokenize_pattern(anchor)
+    idx = R.find_seq(ct, seq)
+    if len(idx) != 1:
+        raise ExtractError(f"{item}: excision anchor `{anchor}` matched {len(idx)} times")
+    i = idx[0]
+    k = i + len(seq)
+    while ct[k].text != "{":
+        if ct[k].text in R.OPEN:
+            k = R.match_close(ct, k)
+        k += 1
+    bc = R.match_close(ct, k)
+    n_lines = text[ct[i].start:ct[bc].end].count("\n") + 1
+    fr.replace(ct[i].start, ct[bc].end, replacement)
+    report.add("W10", item, f"statement `{anchor} {{..}}` ({n_lines} lines) excised" + (f" -> `{replacement}`" if replacement else ""))
+    return fr.apply()
+
+
 def w9_panic_args(text: str, report: DropReport, item: str) -> str:
     """W9: `panic!(..)`/`unreachable!(..)` are KEPT (vstd gives them `requires false`, so each must be
     proved unreachable); only their message arguments are dropped."""
@@ -520,6 +651,8 @@ class Unit:
 
         def prep_fn(text: str, fname: str, owner: str) -> str:
             itemname = f"{owner}::{fname}" if owner else fname
+            if icfg.get("drop_cfg_features"):
+                text = drop_cfg_gated(text, icfg["drop_cfg_features"], self.report, itemname)
             text = strip_attributes(text, self.report, itemname) if icfg.get("strip_attrs", True) else text
             if self.cfg.get("erase_await") or icfg.get("erase_await"):
                 text = erase_await(text, self.report, itemname)
@@ -528,7 +661,15 @@ class Unit:
                 text = rewrite_yield(text, sink, self.report, itemname)
             if icfg.get("w6", self.cfg.get("w6", False)):
                 text = w6_message_text(text, self.report, itemname)
+            if icfg.get("drop_cfg_features"):
+                text = drop_cfg_gated(text, icfg["drop_cfg_features"], self.report, itemname)
+            for ex in icfg.get("excise", []):
+                text = excise_match(text, ex["scrutinee"], ex["replace"], self.report, itemname)
+            for ex in icfg.get("excise_stmt", []):
+                text = excise_stmt(text, ex["anchor"], ex.get("replace", ""), self.report, itemname)
             text = w9_panic_args(text, self.report, itemname)
+            if icfg.get("desugar_try"):
+                text = desugar_try(text, self.report, itemname)
             dm = icfg.get("drop_macros", self.cfg.get("drop_macros"))
             if dm:
                 # W6: logging macro invocations (slog `debug!`/`error!`/..) become the unit value
@@ -592,6 +733,10 @@ class Unit:
                         self.report.add("W0", label, "elided `'static` lifetime of a const item written out")
                 text = fr.apply()
             text = publicise(text, it.kind, self.report, label)
+            if "attrs" in icfg:
+                # annotation only: a Verus datatype attribute (e.g. reject_recursive_types) in front of the item
+                text = icfg["attrs"] + "\n" + text
+                self.report.add("W3", label, f"Verus attribute `{icfg['attrs']}` added")
             self.spans.append({"item": label, "file": relfile, "lines": [src.line_of(it.start), src.line_of(it.end - 1)], "sha256": sha})
             return Chunk("repo", label, text, relfile, (src.line_of(it.start), src.line_of(it.end - 1)), sha, [])
 
